@@ -80,6 +80,7 @@ func VerifC09_JacobianConcurrent() {
 	x0 := append([]float64(nil), x...)
 
 	verifSched(verifParam("c09sched", 1))
+	verifSchedPreempt(verifParam("c09preempt", 1) == 1)
 	con := mat.NewDense(m, n, nil)
 	Jacobian(con, f, x, mk(true))
 	verifAssert(verifSchedDrain() == 0, "Jacobian(Concurrent) leaves no goroutine behind")
@@ -121,6 +122,7 @@ func VerifC09_GradientConcurrent() {
 	serCalls := cnt.n
 	cnt.n = 0
 	verifSched(verifParam("c09sched", 1))
+	verifSchedPreempt(verifParam("c09preempt", 1) == 1)
 	con := Gradient(nil, f, x, mk(true))
 	verifAssert(verifSchedDrain() == 0, "Gradient(Concurrent) leaves no goroutine behind")
 	verifAssert(cnt.n == serCalls, "Gradient(Concurrent) calls f as often as the serial code")
@@ -155,6 +157,7 @@ func VerifC09_DerivativeConcurrent() {
 	serCalls := cnt.n
 	cnt.n = 0
 	verifSched(verifParam("c09sched", 1))
+	verifSchedPreempt(verifParam("c09preempt", 1) == 1)
 	con := Derivative(f, x, mk(true))
 	verifAssert(verifSchedDrain() == 0, "Derivative(Concurrent) leaves no goroutine behind")
 	verifAssert(cnt.n == serCalls, "Derivative(Concurrent) calls f as often as the serial code")
@@ -189,6 +192,7 @@ func VerifC09_HessianConcurrent() {
 	serCalls := cnt.n
 	cnt.n = 0
 	verifSched(verifParam("c09hsched", 1))
+	verifSchedPreempt(verifParam("c09hpreempt", 0) == 1)
 	con := mat.NewSymDense(n, nil)
 	Hessian(con, f, x, mk(true))
 	verifAssert(verifSchedDrain() == 0, "Hessian(Concurrent) leaves no goroutine behind")
@@ -246,7 +250,8 @@ func VerifC09_LaplacianConcurrent() {
 	ser := run(false)
 	serCalls := cnt.n
 	cnt.n = 0
-	verifSched(verifParam("c09sched", 1))
+	verifSched(verifParam("c09hsched", 1))
+	verifSchedPreempt(verifParam("c09hpreempt", 0) == 1)
 	con := run(true)
 	verifAssert(verifSchedDrain() == 0, "Laplacian(Concurrent) leaves no goroutine behind")
 	verifAssert(cnt.n == serCalls, "Laplacian(Concurrent) calls f as often as the serial code")
